@@ -39,9 +39,10 @@ Proof. exact gate_reject. Qed.
 Print Assumptions C02_gate_reject.
 
 (* every frame that carries the right checksum and decodes is delivered, decoded *)
-Theorem C02_gate_complete : forall d f0 id p c v,
+Theorem C02_gate_complete : forall d f0 id p c v p',
   raw_of f0 = (id, p) -> dlookup d id = Some c ->
   gen_checksum f0 id p (c_crc c) = f_ck f0 -> msg_read c (f_v2 f0) p = Ok v ->
+  msg_write c (f_v2 f0) v = Ok p' ->
   exists f, check_dialect d f0 = RFrame f /\ f_msg f = MDec id v /\
             f_seq f = f_seq f0 /\ f_sys f = f_sys f0 /\ f_comp f = f_comp f0.
 Proof. exact gate_complete. Qed.
